@@ -402,6 +402,20 @@ def check(F, run, tier):
             run.add(obs)
             n += k
     run.floor("R-NARROW(sweep)", n, 19)
+    # the VOL header preparation also with its *implicit* conversions: a size handed to a helper whose parameter is narrower
+    # (`FitsLength(uint32_t)`) has lost its upper bits before the helper looks at it
+    ph = F.fn(VOL + "::PrepareHeader", nparams=2)
+    ni = 0
+    for fn in closure(F, ph):
+        obs, k = r_narrow(F, S, fn, explicit_only=False, sign_conversions=False)
+        have = {(x.key(), x.site) for x in run.obligations}
+        obs = [o for o in obs if "accumulation in" not in o.required and (o.key(), o.site) not in have]
+        for o in obs:
+            if o.key() in {x.key() for x in run.obligations}:
+                o.instance += "@implicit"
+        run.add(obs)
+        ni += len(obs)
+    run.floor("R-NARROW(implicit, PrepareHeader)", ni, 3)
     obs, k = c14.r_narrow_prefix(F, S)
     run.add(obs)
     run.floor("prefix-casts", k, 9)
